@@ -44,11 +44,12 @@ type absHop struct {
 	Classes []string `json:"classes"`
 }
 type absCase struct {
-	Kind      string   `json:"kind"`
-	AllowForm string   `json:"allowform"`
-	Allow     [][]int  `json:"allow"`
-	Variant   int      `json:"variant"`
-	Hops      []absHop `json:"hops"`
+	Kind      string    `json:"kind"`
+	AllowForm string    `json:"allowform"`
+	Allow     [][]int   `json:"allow"`
+	Variant   int       `json:"variant"`
+	Hops      []absHop  `json:"hops"`
+	Prev      []absCase `json:"prev"` // history cases: the earlier fetches of the same process
 }
 
 // concrete case (shims)
@@ -65,12 +66,13 @@ type conHop struct {
 	May     [][]int  `json:"may"`
 }
 type conCase struct {
-	ID        int      `json:"id"`
-	Kind      string   `json:"kind"`
-	AllowForm string   `json:"allowform"`
-	Allow     []string `json:"allow"`
-	Variant   int      `json:"variant"`
-	Hops      []conHop `json:"hops"`
+	ID        int       `json:"id"`
+	Kind      string    `json:"kind"`
+	AllowForm string    `json:"allowform"`
+	Allow     []string  `json:"allow"`
+	Variant   int       `json:"variant"`
+	Hops      []conHop  `json:"hops"`
+	Prev      []conCase `json:"prev"`
 }
 
 func str(b []int) string {
@@ -151,10 +153,40 @@ func checkURL(raw string, hp absHop, host string) {
 	}
 }
 
+func concrete(id int, ac absCase) conCase {
+	cc := conCase{ID: id, Kind: ac.Kind, AllowForm: ac.AllowForm, Variant: ac.Variant, Allow: []string{}, Prev: []conCase{}}
+	for _, a := range ac.Allow {
+		cc.Allow = append(cc.Allow, str(a))
+	}
+	for i, hp := range ac.Hops {
+		raw, host := hopURL(i+1, hp)
+		checkURL(raw, hp, host)
+		ch := conHop{URL: raw, Host: host, Scheme: hp.Scheme, User: hp.User, Form: hp.Form, Answers: hp.Answers,
+			Classes: hp.Classes, St: hp.St, Pred: hp.Pred, May: hp.May}
+		if ch.Answers == nil {
+			ch.Answers = [][]int{}
+		}
+		if ch.Pred == nil {
+			ch.Pred = [][]int{}
+		}
+		if ch.May == nil {
+			ch.May = [][]int{}
+		}
+		if ch.Classes == nil {
+			ch.Classes = []string{}
+		}
+		for _, a := range hp.Answers {
+			addr(a)
+		}
+		cc.Hops = append(cc.Hops, ch)
+	}
+	return cc
+}
+
 func expand() {
 	in, out := h.Arg("--in"), h.Arg("--out")
 	w := h.NewW(out)
-	n := 0
+	n, fetches := 0, 0
 	kinds := map[string]int{}
 	err := h.EachLine(in, func(line []byte) error {
 		var ac absCase
@@ -162,32 +194,12 @@ func expand() {
 			return err
 		}
 		n++
-		cc := conCase{ID: n, Kind: ac.Kind, AllowForm: ac.AllowForm, Variant: ac.Variant, Allow: []string{}}
-		for _, a := range ac.Allow {
-			cc.Allow = append(cc.Allow, str(a))
+		cc := concrete(n, ac)
+		for _, p := range ac.Prev {
+			cc.Prev = append(cc.Prev, concrete(0, p))
+			fetches++
 		}
-		for i, hp := range ac.Hops {
-			raw, host := hopURL(i+1, hp)
-			checkURL(raw, hp, host)
-			ch := conHop{URL: raw, Host: host, Scheme: hp.Scheme, User: hp.User, Form: hp.Form, Answers: hp.Answers,
-				Classes: hp.Classes, St: hp.St, Pred: hp.Pred, May: hp.May}
-			if ch.Answers == nil {
-				ch.Answers = [][]int{}
-			}
-			if ch.Pred == nil {
-				ch.Pred = [][]int{}
-			}
-			if ch.May == nil {
-				ch.May = [][]int{}
-			}
-			if ch.Classes == nil {
-				ch.Classes = []string{}
-			}
-			for _, a := range hp.Answers {
-				addr(a)
-			}
-			cc.Hops = append(cc.Hops, ch)
-		}
+		fetches++
 		kinds[ac.Kind]++
 		w.Put(cc)
 		return nil
@@ -196,7 +208,7 @@ func expand() {
 		h.Die("expand: %v", err)
 	}
 	w.Close()
-	h.Summary(map[string]any{"cases": n, "kinds": kinds})
+	h.Summary(map[string]any{"cases": n, "fetches": fetches, "kinds": kinds})
 }
 
 // linkprobe is an OBSERVATION, not part of the verdict of C30 (the property enumerates revocation checks and remote
